@@ -94,6 +94,7 @@ type Result struct {
 	Exhausted                  bool // the whole tree was explored
 	SolverErrs                 int
 	XChecked, XAgree, XUnknown int // cross-solver validation (GOSYM_XCHECK)
+	Retries, RetriesDecided    int // time-outs re-decided with a longer limit
 }
 
 var defaultInitAllow = map[string]bool{
@@ -310,6 +311,7 @@ func (p *Program) Run(job Job) (res *Result) {
 	ex.stats.Unknowns = solver.Unknowns
 	res.SolverErrs = solver.Errors
 	res.XChecked, res.XAgree, res.XUnknown = solver.XChecked, solver.XAgree, solver.XUnknown
+	res.Retries, res.RetriesDecided = solver.Retries, solver.RetriesDecided
 	for _, d := range solver.XDisagree {
 		ex.undecided = append(ex.undecided, "cross-solver disagreement: "+d)
 	}
@@ -357,7 +359,10 @@ func (i *interpreter) runPath(fn *ssa.Function, job *Job) (kind, msg string) {
 		switch p := p.(type) {
 		case pathEnd:
 			kind, msg = p.kind, p.msg
-			if p.kind == "deadlock" || p.kind == "crash" {
+			if p.kind == "race" {
+				p.kind = "data-race"
+			}
+			if p.kind == "deadlock" || p.kind == "crash" || p.kind == "data-race" {
 				sched := ""
 				if i.sched != nil {
 					sched = fmt.Sprint(i.sched.log)
